@@ -8,6 +8,8 @@ from props.common import quiet_ccp, REPO
 
 ID = "C20"
 LEAN_MODULES = ["Ccp.Props.C20", "Ccp.Props.RxC20"]
+# bound of the escalated quick run (source fingerprint changed -> thorough generator): keeps that run near two minutes
+ESCALATE_MAX_CASES = 15000
 RULE = ("two streams. (1) configs: random ASA configs built from a structured description: an alias table of 'name A.B.C.D N' "
         "lines (redefinitions, optional trailing description), 1..9 'object-group network' blocks forming an acyclic "
         "reference graph of depth 0..4 (each group has a level; group-object members point to strictly lower levels, also "
